@@ -776,7 +776,7 @@ func ruleMarkerArms(r *Report) {
 	}
 	var loop *ArmLoop
 	var lf *ssa.Function
-	withClosures(fn, func(f *ssa.Function) {
+	look := func(f *ssa.Function) {
 		for _, l := range FindArmLoops(r.P, f) {
 			// the loop that sets/clears bits of a bitmap under Insert/Delete markers
 			if len(l.May(opInsert, "presence-set")) > 0 || len(l.May(opDelete, "presence-clear")) > 0 || loop == nil {
@@ -789,7 +789,16 @@ func ruleMarkerArms(r *Report) {
 				}
 			}
 		}
-	})
+	}
+	withClosures(fn, look)
+	if loop == nil {
+		// the marker loop moved into an unexported helper that is handed the reader
+		for _, f := range deepFuncs(fn) {
+			if loop == nil && f != fn && f.Parent() == nil {
+				look(f)
+			}
+		}
+	}
 	if loop == nil {
 		h.Bad("commitMarkers/loop", r.P.Pos(fn.Pos()), "commitMarkers has no loop that sets the fill bit for Insert markers and clears it for Delete markers")
 		return
